@@ -1861,7 +1861,7 @@ trp_ext_is_present(ly_bool lysc_tree, const void *node)
     if (lysc_tree) {
         cn = (const struct lysc_node *)node;
         LY_ARRAY_FOR(cn->exts, i) {
-            if (!(cn->exts && cn->exts->def->plugin && cn->exts->def->plugin->printer_ctree)) {
+            if (!(cn->exts[i].def->plugin && cn->exts[i].def->plugin->printer_ctree)) {
                 continue;
             }
             if (!trp_ext_parent_is_valid(1, &cn->exts[i])) {
@@ -1873,7 +1873,7 @@ trp_ext_is_present(ly_bool lysc_tree, const void *node)
     } else {
         pn = (const struct lysp_node *)node;
         LY_ARRAY_FOR(pn->exts, i) {
-            if (!(pn->exts && pn->exts->record && pn->exts->record->plugin.printer_ptree)) {
+            if (!(pn->exts[i].record && pn->exts[i].record->plugin.printer_ptree)) {
                 continue;
             }
             if (!trp_ext_parent_is_valid(0, &pn->exts[i])) {
